@@ -32,7 +32,7 @@ type hRun struct {
 
 func isWriteOp(op string) bool {
 	switch op {
-	case "find", "findOne", "count", "estCount", "distinct", "listIndexes", "listColls", "listDBs", "listCollsFull", "listDBsFull":
+	case "find", "findOne", "count", "estCount", "distinct", "listIndexes", "listColls", "listDBs", "listCollsFull", "listDBsFull", "litter":
 		return false
 	}
 	return true
